@@ -142,13 +142,17 @@ theorem stmts_nl {c : Cfg} {q : Q} {stops : List Tok} {f : Nat} {gotEnd any : Bo
       | nil => rfl
       | cons t r => simp
 
+/-- The closing words of a list are no and-or / pipe operators (they are reserved words). -/
+def stopsOK (stops : List Tok) : Prop :=
+  stops.contains pipe = false ∧ stops.contains andIf = false ∧ stops.contains orIf = false
+
 /-- What completeness says for each non-terminal: the parser function(s) that read it succeed on
     `pre ++ rest`, leaving `rest`, provided `rest` may follow and the fuel is at least
     `8 * pre.length + constant`. -/
 def Comp (c : Cfg) : NT → End → List Tok → Prop
   | .program, _, _ => True
-  | .list q stops a, e, pre => ∀ f rest gotEnd any, allows q e rest.head? = true →
-      ListEnd q stops rest → 8 * pre.length + 5 ≤ f →
+  | .list q stops a, e, pre => ∀ f rest gotEnd any, stopsOK stops →
+      allows q e rest.head? = true → ListEnd q stops rest → 8 * pre.length + 5 ≤ f →
       (gotEnd = false → pre = [] ∨ pre.head? = some nl) →
       stmts c q stops f gotEnd any (pre ++ rest) = .ok (any || a, rest)
   | .stmt q, e, pre => ∀ f rest readEnd, allows q e rest.head? = true → notCont rest.head? = true →
@@ -198,5 +202,297 @@ theorem stmts_step {c : Cfg} {q : Q} {stops : List Tok} {f : Nat} {gotEnd any : 
   have h2 : t ≠ rparen := by rintro rfl; simp [isStart0] at hs
   have h3 : t ≠ dsemi := by rintro rfl; simp [isStart0] at hs
   simp [hmem, h1, h2, h3, hget]
+
+theorem readEndRes_stop {q : Q} {stops : List Tok} {rest : List Tok} (h : ListEnd q stops rest) :
+    readEndRes true rest = (false, rest) := by
+  rcases h with rfl | ⟨t, r, rfl, _, h2, h3, _⟩
+  · rfl
+  · cases t <;> first | rfl | exact absurd rfl h2 | exact absurd rfl h3
+
+theorem notCont_stop {q : Q} {stops : List Tok} {rest : List Tok} (h : ListEnd q stops rest)
+    (hs : stopsOK stops) :
+    notCont rest.head? = true := by
+  rcases h with rfl | ⟨t, r, rfl, _, _, _, h4⟩
+  · rfl
+  · rcases h4 with h4 | ⟨rfl, _⟩ | ⟨rfl, _⟩
+    · obtain ⟨h1, h2, h3⟩ := hs
+      cases t <;> first | rfl | simp_all
+    · rfl
+    · rfl
+
+theorem comp_l_nil {c : Cfg} {q : Q} {stops : List Tok} : Comp c (.list q stops false) .closed [] := by
+  intro f rest gotEnd any _ _ hend hf _
+  obtain ⟨f', rfl⟩ : ∃ f', f = f' + 1 := ⟨f - 1, by omega⟩
+  simpa using stmts_stop (c := c) (f := f') (gotEnd := gotEnd) (any := any) hend
+
+theorem comp_l_nl {c : Cfg} {q : Q} {stops : List Tok} {a e ts}
+    (ih : Comp c (.list q stops a) e ts) : Comp c (.list q stops a) e (nl :: ts) := by
+  intro f rest gotEnd any hs3 hal hend hf _
+  simp only [List.cons_append, stmts_nl]
+  exact ih f rest true any hs3 hal hend (by simp at hf; omega) (by simp)
+
+theorem comp_l_last {c : Cfg} {q : Q} {stops : List Tok} {e s}
+    (hd : Derives c (.stmt q) e s) (hstart : startOK stops s)
+    (ih : Comp c (.stmt q) e s) : Comp c (.list q stops true) e s := by
+  intro f rest gotEnd any hs3 hal hend hf hg
+  obtain ⟨t, r, rfl, ht⟩ := first_of_derives hd
+  have hg' : gotEnd = true := by
+    cases gotEnd with
+    | true => rfl
+    | false =>
+      rcases hg rfl with h | h
+      · cases h
+      · simp at h; subst h; simp [isStart0] at ht
+  obtain ⟨f', rfl⟩ : ∃ f', f = f' + 1 := ⟨f - 1, by omega⟩
+  obtain ⟨f'', rfl⟩ : ∃ f'', f' = f'' + 1 := ⟨f' - 1, by omega⟩
+  have hget := ih (f''+1) rest true hal (notCont_stop hend hs3) (by omega)
+  rw [readEndRes_stop hend] at hget
+  have hget' : getStmt c q true false (f''+1) (t :: (r ++ rest)) = .ok (false, rest) := by
+    simpa using hget
+  rw [List.cons_append, stmts_step ht (startOK_head hstart) hg' hget', stmts_stop hend]
+  simp
+
+theorem comp_l_sep {c : Cfg} {q : Q} {stops : List Tok} {e0 s sep a e ts}
+    (hd : Derives c (.stmt q) e0 s) (hstart : startOK stops s) (hsep : sep = semi ∨ sep = amp)
+    (hal0 : allows q e0 (some sep) = true)
+    (ihs : Comp c (.stmt q) e0 s) (ihl : Comp c (.list q stops a) e ts) :
+    Comp c (.list q stops true) e (s ++ sep :: ts) := by
+  intro f rest gotEnd any hs3 hal hend hf hg
+  obtain ⟨t, r, rfl, ht⟩ := first_of_derives hd
+  have hg' : gotEnd = true := by
+    cases gotEnd with
+    | true => rfl
+    | false =>
+      rcases hg rfl with h | h
+      · cases h
+      · simp at h; subst h; simp [isStart0] at ht
+  simp only [List.length_append, List.length_cons] at hf
+  obtain ⟨f', rfl⟩ : ∃ f', f = f' + 1 := ⟨f - 1, by omega⟩
+  have hget := ihs f' (sep :: ts ++ rest) true (by simpa using hal0)
+    (by rcases hsep with rfl | rfl <;> rfl) (by simp; omega)
+  have hres : readEndRes true (sep :: ts ++ rest) = (true, ts ++ rest) := by
+    rcases hsep with rfl | rfl <;> rfl
+  rw [hres] at hget
+  have := stmts_step (c := c) (q := q) (stops := stops) (f := f') (gotEnd := gotEnd) (any := any)
+    (t := t) (r := r ++ sep :: ts ++ rest) ht (startOK_head hstart) hg' (by simpa using hget)
+  simp only [List.cons_append, List.append_assoc] at this ⊢
+  rw [this]
+  have := ihl f' rest true true hs3 hal hend (by omega) (by simp)
+  simpa using this
+
+theorem comp_l_newl {c : Cfg} {q : Q} {stops : List Tok} {e0 s a e ts}
+    (hd : Derives c (.stmt q) e0 s) (hstart : startOK stops s)
+    (hal0 : allows q e0 (some nl) = true)
+    (ihs : Comp c (.stmt q) e0 s) (ihl : Comp c (.list q stops a) e ts) :
+    Comp c (.list q stops true) e (s ++ nl :: ts) := by
+  intro f rest gotEnd any hs3 hal hend hf hg
+  obtain ⟨t, r, rfl, ht⟩ := first_of_derives hd
+  have hg' : gotEnd = true := by
+    cases gotEnd with
+    | true => rfl
+    | false =>
+      rcases hg rfl with h | h
+      · cases h
+      · simp at h; subst h; simp [isStart0] at ht
+  simp only [List.length_append, List.length_cons] at hf
+  obtain ⟨f', rfl⟩ : ∃ f', f = f' + 1 := ⟨f - 1, by omega⟩
+  have hget := ihs f' (nl :: ts ++ rest) true (by simpa using hal0) rfl (by simp; omega)
+  have hres : readEndRes true (nl :: ts ++ rest) = (false, nl :: ts ++ rest) := rfl
+  rw [hres] at hget
+  have := stmts_step (c := c) (q := q) (stops := stops) (f := f') (gotEnd := gotEnd) (any := any)
+    (t := t) (r := r ++ nl :: ts ++ rest) ht (startOK_head hstart) hg' (by simpa using hget)
+  simp only [List.cons_append, List.append_assoc] at this ⊢
+  rw [this, stmts_nl]
+  have := ihl f' rest true true hs3 hal hend (by omega) (by simp)
+  simpa using this
+
+theorem start0_ne_nl {t : Tok} (h : isStart0 t = true) : t ≠ nl := by rintro rfl; simp [isStart0] at h
+theorem start0_not_stop {t : Tok} (h : isStart0 t = true) : stopTok t = false := by
+  cases t <;> simp_all [isStart0, stopTok, callStop]
+
+theorem skipNL_nls_start {k : Nat} {t : Tok} {r : List Tok} (h : isStart0 t = true) :
+    skipNL (nls k ++ t :: r) = t :: r := skipNL_nls_cons (start0_ne_nl h)
+
+theorem comp_stmt {c : Cfg} {q e0 p e t}
+    (ihp : Comp c (.bpipe q) e0 p) (iht : Comp c (.aoTail q e0) e t) : Comp c (.stmt q) e (p ++ t) := by
+  intro f rest readEnd hal hnc hf
+  obtain ⟨h1, h2⟩ := iht.1 rest hal hnc
+  simp only [List.length_append] at hf
+  rw [List.append_assoc, ihp f (t ++ rest) readEnd false h1 h2 (by omega)]
+  exact iht.2 (f-1) rest readEnd hal hnc (by omega)
+
+theorem notCont_ne_pipe {n : Option Tok} (h : notCont n = true) : n ≠ some pipe := by
+  rintro rfl; simp [notCont] at h
+
+theorem comp_t_nil {c : Cfg} {q e0} : Comp c (.aoTail q e0) e0 [] := by
+  refine ⟨fun rest hal hnc => ⟨by simpa using hal, by simpa using notCont_ne_pipe hnc⟩, ?_⟩
+  intro f rest readEnd _ hnc hf
+  obtain ⟨f', rfl⟩ : ∃ f', f = f' + 1 := ⟨f - 1, by omega⟩
+  simpa using andOrTail_stop (c := c) (q := q) (readEnd := readEnd) (binCmd := false) (f := f') hnc
+
+theorem andOrTail_op {c : Cfg} {q : Q} {readEnd : Bool} {f : Nat} {op : Tok} {r r' : List Tok} {x : Bool}
+    (hop : op = andIf ∨ op = orIf) (hg : getStmt c q false true f (skipNL r) = .ok (x, r')) :
+    andOrTail c q readEnd false (f+1) (op :: r) = andOrTail c q readEnd false f r' := by
+  rcases hop with rfl | rfl <;> simp [andOrTail, hg]
+
+theorem comp_t_op {c : Cfg} {q e0 op k e1 p e t} (hop : op = andIf ∨ op = orIf)
+    (hal0 : allows q e0 (some op) = true) (hdp : Derives c (.bpipe q) e1 p)
+    (ihp : Comp c (.bpipe q) e1 p) (iht : Comp c (.aoTail q e1) e t) :
+    Comp c (.aoTail q e0) e (op :: nls k ++ p ++ t) := by
+  refine ⟨fun rest _ _ => ⟨by simpa using hal0, by rcases hop with rfl | rfl <;> simp⟩, ?_⟩
+  intro f rest readEnd hal hnc hf
+  obtain ⟨t0, r0, rfl, ht0⟩ := first_of_derives hdp
+  obtain ⟨h1, h2⟩ := iht.1 rest hal hnc
+  simp only [List.length_append, List.length_cons, nls_length] at hf
+  obtain ⟨f', rfl⟩ : ∃ f', f = f' + 1 := ⟨f - 1, by omega⟩
+  obtain ⟨f'', rfl⟩ : ∃ f'', f' = f'' + 1 := ⟨f' - 1, by omega⟩
+  have hsk : skipNL (nls k ++ (t0 :: r0) ++ t ++ rest) = (t0 :: r0) ++ (t ++ rest) := by
+    simpa using skipNL_nls_start (k := k) (r := r0 ++ (t ++ rest)) ht0
+  have hg : getStmt c q false true (f''+1) (skipNL (nls k ++ (t0 :: r0) ++ t ++ rest))
+      = .ok (false, t ++ rest) := by
+    rw [hsk, ihp (f''+1) (t ++ rest) false true h1 h2 (by simp; omega)]
+    obtain ⟨f3, rfl⟩ : ∃ f3, f'' = f3 + 1 := ⟨f'' - 1, by omega⟩
+    exact andOrTail_bin _
+  have := andOrTail_op (c := c) (q := q) (readEnd := readEnd) hop hg
+  simp only [List.cons_append, List.append_assoc] at this ⊢
+  rw [this]
+  exact iht.2 (f''+1) rest readEnd hal hnc (by omega)
+
+theorem getStmt_plain {c : Cfg} {q : Q} {re bc : Bool} {f : Nat} {t : Tok} {r : List Tok}
+    (h : t ≠ bang) : getStmt c q re bc (f+1) (t :: r) =
+      (pipeline c q false false f (t :: r)).bind (andOrTail c q re bc f) := by
+  cases t <;> first | rfl | exact absurd rfl h
+
+theorem comp_b_plain {c : Cfg} {q e p} (hd : Derives c (.pipeline q false) e p)
+    (ih : Comp c (.pipeline q false) e p) : Comp c (.bpipe q) e p := by
+  intro f rest readEnd binCmd hal hnp hf
+  obtain ⟨t, r, rfl, _, hnb⟩ := first_of_derives hd
+  obtain ⟨f', rfl⟩ : ∃ f', f = f' + 1 := ⟨f - 1, by omega⟩
+  rw [List.cons_append, getStmt_plain (hnb rfl)]
+  have := ih f' rest hal hnp (by omega)
+  rw [List.cons_append] at this
+  simp [this, R.bind]
+
+theorem comp_b_bang {c : Cfg} {q e p} (hba : c.bangAlone = false)
+    (hd : Derives c (.pipeline q true) e p) (hnb : p.head? ≠ some bang)
+    (ih : Comp c (.pipeline q true) e p) : Comp c (.bpipe q) e (bang :: p) := by
+  intro f rest readEnd binCmd hal hnp hf
+  obtain ⟨t, r, rfl, ht, _⟩ := first_of_derives hd
+  simp only [List.length_cons] at hf
+  obtain ⟨f', rfl⟩ : ∃ f', f = f' + 1 := ⟨f - 1, by omega⟩
+  have htb : t ≠ bang := by simpa using hnb
+  have := ih f' rest hal hnp (by simp; omega)
+  rw [List.cons_append] at this
+  simp [getStmt, hba, start0_not_stop ht, htb, this, R.bind]
+
+theorem dropWhile_bangs {k : Nat} {X : List Tok} (h : X.head? ≠ some bang) :
+    (bangs k ++ X).dropWhile (· == bang) = X := by
+  induction k with
+  | zero =>
+    cases X with
+    | nil => rfl
+    | cons t r =>
+      have : (t == bang) = false := by simpa using h
+      simp [bangs, this]
+  | succ k ih => simpa [bangs, List.replicate, List.dropWhile] using ih
+
+theorem comp_b_bangs {c : Cfg} {q e p k} (hba : c.bangAlone = true)
+    (hd : Derives c (.pipeline q true) e p) (hnb : p.head? ≠ some bang)
+    (ih : Comp c (.pipeline q true) e p) : Comp c (.bpipe q) e (bang :: bangs k ++ p) := by
+  intro f rest readEnd binCmd hal hnp hf
+  obtain ⟨t, r, rfl, ht, _⟩ := first_of_derives hd
+  simp only [List.length_cons, List.length_append, bangs_length] at hf
+  obtain ⟨f', rfl⟩ : ∃ f', f = f' + 1 := ⟨f - 1, by omega⟩
+  have htb : t ≠ bang := by simpa using hnb
+  have hdw : (bangs k ++ (t :: r) ++ rest).dropWhile (· == bang) = t :: (r ++ rest) := by
+    simpa using dropWhile_bangs (k := k) (X := t :: (r ++ rest)) (by simpa using htb)
+  have := ih f' rest hal hnp (by simp; omega)
+  rw [List.cons_append] at this
+  have hunf : getStmt c q readEnd binCmd (f'+1) (bang :: (bangs k ++ (t :: r) ++ rest)) =
+      (pipeline c q true false f' (t :: (r ++ rest))).bind (andOrTail c q readEnd binCmd f') := by
+    simp only [getStmt, hba, if_true, hdw]
+    cases t <;> simp_all [isStart0, stopTok, callStop]
+  simp only [List.cons_append, List.append_assoc] at hunf ⊢
+  rw [hunf]
+  simp [this, R.bind]
+
+theorem comp_b_bare {c : Cfg} {q k} (hba : c.bangAlone = true) :
+    Comp c (.bpipe q) .bare (bang :: bangs k) := by
+  intro f rest readEnd binCmd hal hnp hf
+  simp only [List.length_cons, bangs_length] at hf
+  obtain ⟨f', rfl⟩ : ∃ f', f = f' + 1 := ⟨f - 1, by omega⟩
+  obtain ⟨f'', rfl⟩ : ∃ f'', f' = f'' + 1 := ⟨f' - 1, by omega⟩
+  have hrest : rest = [] ∨ (∃ r, rest = nl :: r) ∨ ∃ r, rest = semi :: r := by
+    cases rest with
+    | nil => exact .inl rfl
+    | cons t r =>
+      simp [allows] at hal
+      rcases hal with rfl | rfl
+      · exact .inr (.inl ⟨r, rfl⟩)
+      · exact .inr (.inr ⟨r, rfl⟩)
+  have hdw : (bangs k ++ rest).dropWhile (· == bang) = rest :=
+    dropWhile_bangs (by rcases hrest with rfl | ⟨r, rfl⟩ | ⟨r, rfl⟩ <;> simp)
+  simp only [List.cons_append, getStmt, hba, if_true, hdw, Nat.add_sub_cancel]
+  rcases hrest with rfl | ⟨r, rfl⟩ | ⟨r, rfl⟩
+  · rfl
+  · rfl
+  · cases readEnd <;> rfl
+
+theorem comp_pipeline {c : Cfg} {q neg e0 cm e t}
+    (ihc : Comp c (.command q neg) e0 cm) (iht : Comp c (.pipeTail q e0) e t) :
+    Comp c (.pipeline q neg) e (cm ++ t) := by
+  intro f rest hal hnp hf
+  simp only [List.length_append] at hf
+  rw [List.append_assoc, ihc f (t ++ rest) false (iht.1 rest hal) (by omega)]
+  exact iht.2 (f-1) rest hal hnp (by omega)
+
+theorem comp_p_nil {c : Cfg} {q e0} : Comp c (.pipeTail q e0) e0 [] := by
+  refine ⟨fun rest hal => by simpa using hal, ?_⟩
+  intro f rest _ hnp hf
+  obtain ⟨f', rfl⟩ : ∃ f', f = f' + 1 := ⟨f - 1, by omega⟩
+  simpa using pipeTail_stop (c := c) (q := q) (binCmd := false) (f := f') hnp
+
+theorem pipeTail_pipe {c : Cfg} {q : Q} {f : Nat} {r r' : List Tok}
+    (hp : pipeline c q false true f (skipNL r) = .ok r') :
+    pipeTail c q false (f+1) (pipe :: r) = pipeTail c q false f r' := by
+  simp [pipeTail, hp, R.bind]
+
+theorem comp_p_pipe {c : Cfg} {q e0 k e1 cm e t} (hal0 : allows q e0 (some pipe) = true)
+    (hdc : Derives c (.command q false) e1 cm)
+    (ihc : Comp c (.command q false) e1 cm) (iht : Comp c (.pipeTail q e1) e t) :
+    Comp c (.pipeTail q e0) e (pipe :: nls k ++ cm ++ t) := by
+  refine ⟨fun rest _ => by simpa using hal0, ?_⟩
+  intro f rest hal hnp hf
+  obtain ⟨t0, r0, rfl, ht0, _⟩ := first_of_derives hdc
+  simp only [List.length_append, List.length_cons, nls_length] at hf
+  obtain ⟨f', rfl⟩ : ∃ f', f = f' + 1 := ⟨f - 1, by omega⟩
+  obtain ⟨f'', rfl⟩ : ∃ f'', f' = f'' + 1 := ⟨f' - 1, by omega⟩
+  obtain ⟨f3, rfl⟩ : ∃ f3, f'' = f3 + 1 := ⟨f'' - 1, by omega⟩
+  have hsk : skipNL (nls k ++ (t0 :: r0) ++ t ++ rest) = (t0 :: r0) ++ (t ++ rest) := by
+    simpa using skipNL_nls_start (k := k) (r := r0 ++ (t ++ rest)) ht0
+  have hp : pipeline c q false true (f3+1+1) (skipNL (nls k ++ (t0 :: r0) ++ t ++ rest))
+      = .ok (t ++ rest) := by
+    rw [hsk, ihc (f3+1+1) (t ++ rest) true (iht.1 rest hal) (by simp; omega)]
+    exact pipeTail_bin _
+  have hunf : pipeTail c q false (f3+1+1+1) (pipe :: (nls k ++ (t0 :: r0) ++ t ++ rest)) =
+      pipeTail c q false (f3+1+1) (t ++ rest) := pipeTail_pipe hp
+  simp only [List.cons_append, List.append_assoc] at hunf ⊢
+  rw [hunf]
+  exact iht.2 (f3+1+1) rest hal hnp (by omega)
+
+theorem allows_ne_io {q : Q} {e : End} {n : Option Tok} (h : allows q e n = true) : n ≠ some io := by
+  rintro rfl; rw [allows_io] at h; cases h
+
+/-- `pipeline` once the command proper has been read. -/
+theorem pipeline_of_command {c : Cfg} {q : Q} {neg binCmd : Bool} {f : Nat} {pr body rest : List Tok}
+    (hpr : Redirs pr) (hr : rest.head? ≠ some io)
+    (hc : command c q neg (!pr.isEmpty) f (body ++ rest) = .ok rest)
+    (hbr : (body ++ rest).head? ≠ some io) :
+    pipeline c q neg binCmd (f+1) (pr ++ body ++ rest) = pipeTail c q binCmd f rest := by
+  have h1 : redirs (pr ++ (body ++ rest)) = some (!pr.isEmpty, body ++ rest) :=
+    redirs_complete hpr _ hbr
+  have h2 : redirs rest = some (false, rest) := by
+    simpa using redirs_complete .nil rest hr
+  simp only [pipeline, List.append_assoc, h1, hc, R.bind, h2]
 
 end ShVerif.C12
